@@ -4,6 +4,7 @@ CONSTANTS
   Mode = "single"
   Sample = FALSE
   Runs = 1
+  ExhaustInputs = FALSE
   ViewRoots = FALSE
 SPECIFICATION MacroSpec
 INVARIANT C01Single
